@@ -139,6 +139,15 @@ def moves (t : Thread) : List Choice :=
   | .fault => []
   | _ => [junk]
 
+/-- the same move as a Lean term, so that a printed schedule can be re-checked by the kernel:
+`example : ((runSched cfg (init n) sched).any fun s => (s.threads.filter (·.held)).length > 1) = true := by decide` -/
+def leanMove (i : Nat) (ch : Choice) : String :=
+  let c := match ch with
+    | .callAcquire => ".callAcquire" | .callTry => ".callTry" | .callRelease => ".callRelease"
+    | .csRead => ".csRead" | .csWrite => ".csWrite" | .run => ".run"
+    | .havoc a b c d z => s!".havoc {a} {b} {c} {d} {z}"
+  s!"({i}, {c})"
+
 def showMove (s : State) (i : Nat) (ch : Choice) : String :=
   let what := match ch with
     | .callAcquire => "Acquire()" | .callTry => "TryToAcquire()" | .callRelease => "Release()"
@@ -147,7 +156,7 @@ def showMove (s : State) (i : Nat) (ch : Choice) : String :=
       | .go m pc => s!"{match m with | .acquire => "Acquire" | .try_ => "TryToAcquire" | .release => "Release"}.go[{pc}]"
       | .asm _ _ pc => s!"asm[{pc}]"
       | _ => "?"
-  s!"t{i}:{what}"
+  s!"t{i}:{what}|{leanMove i ch}"
 
 /-- violated clause of a model state, if any -/
 def badState (s : State) : Option String :=
@@ -214,7 +223,9 @@ def search (n : Nat) : IO (Bool × Nat) := do
     match r with
     | some f =>
       ok := false
-      IO.println s!"PROPFAIL case=search clause={f.clause} feature=model-search op=search {n} yieldFn={name} schedule: {" ".intercalate f.sched} impl=model-of-regenerated-program states={f.states}"
+      let human := f.sched.map fun m => (m.splitOn "|").headD ""
+      let lean := f.sched.map fun m => (m.splitOn "|").getD 1 ""
+      IO.println s!"PROPFAIL case=search clause={f.clause} feature=model-search op=search {n} yieldFn={name} schedule: {" ".intercalate human} impl=model-of-regenerated-program states={f.states} lean-schedule: cfg.lockAddr={cfg.lockAddr} cfg.yieldFn={cfg.yieldFn} [{", ".intercalate lean}]"
     | none => pure ()
   return (ok, total)
 
@@ -239,6 +250,8 @@ def processLine (st : St) (line : String) : IO St := do
     let op := toks opS
     let obs := toks obsS
     let mut st := { st with stats := st.stats.bump "ops" |>.bump s!"op_{op.headD "?"}" }
+    if op.head? = some "search" ∧ ¬ tieBroken.isEmpty then
+      return { st with searched := true }
     if op.head? = some "search" then
       let n := nat! (op.getD 1 "2")
       let (ok, cnt) ← search n
@@ -247,7 +260,8 @@ def processLine (st : St) (line : String) : IO St := do
         IO.println s!"MISMATCH case={st.caseId} op={opS} model=violation impl={obsS}"
         st := { st with stats := st.stats.bump "mismatch" }
       return st
-    let (m, sim') := modelObs st.sim op
+    -- with a broken tie there is no model of the current source: only the oracle judges
+    let (m, sim') := if tieBroken.isEmpty then modelObs st.sim op else (obsS.trimAscii.toString, st.sim)
     if m ≠ obsS.trimAscii.toString then
       IO.println s!"MISMATCH case={st.caseId} op={opS} model={m} impl={obsS}"
       st := { st with stats := st.stats.bump "mismatch" }
@@ -273,6 +287,9 @@ def processLine (st : St) (line : String) : IO St := do
 
 def run (lines : Array String) : IO Unit := do
   let mut st : St := {}
+  for why in tieBroken do
+    IO.println s!"MISMATCH case=tie op=translate model=BROKEN-TIE {why} impl=source-changed"
+    st := { st with searched := true, stats := st.stats.bump "tie_broken" }
   for l in lines do st ← processLine st l
   if ¬ st.searched then
     -- the trace carries no search request (e.g. the harness died early): search anyway, it is cheap
